@@ -474,6 +474,14 @@ def alloc_task(task):
         def s_havoc(ex, st, ins, args):
             p = ex.resolve(st, args[0][1][0][0])
             ln = args[1][1][0][0]
+            if p.obj == 0:
+                # allocate() handed out a null pointer: nothing can be written through it.  That is only acceptable for a zero-length
+                # request; what deallocate() then does with the null pointer is decided by the ordinary memory obligations.
+                st.oblige('alloc:null-or-foreign-result', sym.ne(ln, 0, 64) if not isinstance(ln, int) else (ln != 0),
+                          'allocate(n) returned a null pointer for a request of non-zero size')
+                st.extra['null_result'] = True
+                ex.null_pcs = getattr(ex, 'null_pcs', []) + [tuple(st.pc)]
+                return None
             st.extra['user'] = (p, ln)
             o = st.wobj(p.obj)
             if o.kind != 'array':
@@ -496,13 +504,27 @@ def alloc_task(task):
         rm, _ = harness.make_rm(None)
         st, mx_asm = harness.init_state(ex, rm)
         asm += mx_asm
-        finals = ex.run(meta['name'], [[(n, False)]], st)
+        null_deref = None
+        try:
+            finals = ex.run(meta['name'], [[(n, False)]], st)
+        except symex.NotEncodable as e:
+            # allocate() returned null on some path and the code then computed an address from it that belongs to no object: in this
+            # harness that is an access through the null pointer, not a gap of the encoding.  It becomes an obligation (is that path
+            # feasible?) whose model is replayed natively like any other counterexample.
+            if 'cannot resolve pointer' in str(e) and getattr(ex, 'null_pcs', None):
+                finals = []
+                null_deref = (ex.null_pcs[-1], str(e))
+            else:
+                raise
         asm = ex.assumptions
         res['paths'] = len(finals)
         res['steps'] = ex.total_steps
         res['intrinsics'] = sorted(ex.intrinsics_used)
         res['callees'] = sorted(ex.called)
         obls = []
+        if null_deref is not None:
+            obls.append(('alloc:access-through-null-result', b_and(*null_deref[0]),
+                         'after allocate(n) returned a null pointer the code accesses memory at an address computed from it (%s)' % null_deref[1][:80]))
         for f in finals:
             pc = b_and(*f.pc)
             for cat, bad, info, pcsnap in f.obls:
@@ -599,7 +621,7 @@ ALLOC_REPLAY = r'''
 #include <cstring>
 #include <cstdlib>
 #include <vector>
-extern "C" void avel_verif_havoc(void* p, std::size_t bytes) { std::memset(p, 0xA5, bytes); }
+extern "C" void avel_verif_havoc(void* p, std::size_t bytes) { if (p && bytes) std::memset(p, 0xA5, bytes); }
 int main() {
     using T = %(tn)s;
     constexpr std::size_t A = %(A)d;
@@ -611,7 +633,7 @@ int main() {
         T* p = a.allocate(n);
         if (!p && n) { std::printf("NULL for n=%%zu\n", n); return 5; }
         if (reinterpret_cast<std::uintptr_t>(p) %% A) { std::printf("MISALIGNED n=%%zu\n", n); return 6; }
-        std::memset(static_cast<void*>(p), 0x5A, n * sizeof(T));
+        if (p && n) std::memset(static_cast<void*>(p), 0x5A, n * sizeof(T));   // the harness itself never touches a null result
         live.push_back({p, n});
     }
     for (auto& pn : live) {
